@@ -59,6 +59,8 @@ CLASSES = [
          # special members
          P("constVal", INT, None, None, constant=True, write=False),
          P("silentVal", INT, None, None),                      # non-constant, no notify: reads must be rejected
+         P("silentPeer", PW, None, None),                      # re-pointable link without notify: reads through it must be rejected
+         P("constPeer", PW, None, None, constant=True, write=False),
          # naming-collision bait for C16
          P("barBaz", INT, None, 2), P("barBaz1", INT, None, 2), P("baz", INT, None, 2),
      ],
